@@ -242,8 +242,34 @@ pub fn fill_len(info: &Info, big: usize) -> BoxedStrategy<usize> {
         3 => (bb.saturating_sub(9))..=(bb + 9),
         2 => (2 * bb).saturating_sub(5)..=(2 * bb + 5),
         2 => 65usize..=big.max(66),
+        // exact multiples of the block size, and requests of 64 KiB and more (bulk paths)
+        2 => (1usize..=4).prop_map(move |k| k * bb),
+        if big >= 5000 { 1 } else { 0 } => prop_oneof![Just(65536usize), 65537usize..=70_000, Just(131072usize), (16usize..=40).prop_map(move |k| k * bb + 4096 * 16)],
     ]
     .boxed()
+}
+
+/// histories focused on a block boundary: a vocabulary of calls that land exactly on, one short
+/// of, or one past the boundary (used together with a pre-advance close to the boundary)
+pub fn boundary_ops(info: &Info, max_len: usize) -> BoxedStrategy<Vec<Op>> {
+    let bb = if info.block > 0 { info.block * (info.word as usize / 8) } else { 64 };
+    let wb = info.word as usize / 8;
+    let op = prop_oneof![
+        5 => Just(Op::U32),
+        4 => Just(Op::U64),
+        1 => Just(Op::Fill(0)),
+        2 => Just(Op::Fill(wb)),
+        1 => Just(Op::Fill(wb / 2)),
+        3 => (1usize..=3).prop_map(move |k| Op::Fill(k * bb)),
+        2 => (1usize..=2, 1usize..=8).prop_map(move |(k, e)| Op::Fill(k * bb - e.min(k * bb))),
+        2 => (1usize..=2, 1usize..=8).prop_map(move |(k, e)| Op::Fill(k * bb + e)),
+    ];
+    vec(op, 0..=max_len).boxed()
+}
+
+pub fn boundary_pre(info: &Info) -> BoxedStrategy<usize> {
+    let b = info.block.max(4);
+    prop_oneof![(b - 3)..=(b + 1), (2 * b - 3)..=(2 * b + 1), Just(b - 1), Just(b)].boxed()
 }
 
 pub fn op(info: &Info, big: usize, jumps: bool) -> BoxedStrategy<Op> {
